@@ -551,9 +551,10 @@ static void judge(struct tut* t, struct lk* k, var exc) {
 */
 static int run_history(struct tut* t) {
   h_pos = 0; h_first = 1; h_viol = 0; cur_cfg_valid = 0;
-  if (is_rt) ;                            /* a run-time case keeps its own (replayable) description */
-  else if (h_desc) vf_set_cur("%s", h_desc);
-  else build_cur_hist(t);
+  if (!is_rt) {                           /* a run-time case keeps its own (replayable) description */
+    if (h_desc) vf_set_cur("%s", h_desc);
+    else build_cur_hist(t);
+  }
   while (h_pos < HN) {
     try {
       if (h_first) {
